@@ -54,11 +54,11 @@ func TestC19(t *testing.T) {
 		Oracle: OracleC19})
 }
 
-var knobsHealth = Knobs{MinInst: 1, MaxInst: 3, LatFrac: 0.2, WatchDelayH: 0.5, Health: true, Stops: true, Promote: true, MinHorizonH: 30, MaxHorizonH: 70}
+var knobsHealth = Knobs{MinInst: 1, MaxInst: 3, LatFrac: 0.2, WatchDelayH: 0.5, Health: true, Stops: true, Promote: true, LongH: true, MinHorizonH: 30, MaxHorizonH: 70}
 
 func TestC12(t *testing.T) {
 	RunCheck(t, CheckSpec{Prop: "C12",
-		Rule: "1-3 instances with a scripted health checker (healthy / unhealthy / slow-then-healthy / slow-then-unhealthy = blocks until the supplied context is done), thresholds MaxConsecutiveFailures in {0(->3),1,2,3,5}, scripts that over-weight runs of threshold-1, threshold, threshold+1 unhealthy results, runs of 30-70 H so that an instance leads several terms (re-acquires after its record lapses), occasional stops/restarts, in a third of the plans isolated transient failures of 1-6 of the instance's first 25 refreshes; oracle: a reference consecutive-failure counter per term fed with the checker's own call log decides on which tick the health mechanism must demote (exactly at the threshold, never below, reset by a healthy result and by a new term), plus ctx deadline <= 100ms, no refresh on unhealthy ticks, OnDemote, FOLLOWER afterwards and re-election of a sole candidate within 600ms + latencies of the record's lapse. Non-trivial = a script with >= 1 unhealthy result reached a leader; distinct by plan hash.",
+		Rule: "1-3 instances with a scripted health checker (healthy / unhealthy / slow-then-healthy / slow-then-unhealthy = blocks until the supplied context is done), thresholds MaxConsecutiveFailures in {0(->3),1,2,3,5}, heartbeat intervals 100ms..3s (the heartbeat time-out switches from 1s to H/2 above 2s), scripts that over-weight runs of threshold-1, threshold, threshold+1 unhealthy results, runs of 30-70 H so that an instance leads several terms (re-acquires after its record lapses), occasional stops/restarts, in a third of the plans isolated transient failures of 1-6 of the instance's first 25 refreshes; oracle: a reference consecutive-failure counter per term fed with the checker's own call log decides on which tick the health mechanism must demote (exactly at the threshold, never below, reset by a healthy result and by a new term), plus ctx deadline <= 100ms, no refresh on unhealthy ticks, OnDemote, FOLLOWER afterwards and re-election of a sole candidate within 600ms + latencies of the record's lapse. Non-trivial = a script with >= 1 unhealthy result reached a leader; distinct by plan hash.",
 		Gen: func(t *rapid.T) *Plan {
 			p := GenPlan(t, "health", knobsHealth)
 			for i := range p.Instances {
